@@ -139,14 +139,14 @@ E3_ASSUME = [
 ]
 
 
-def e3_stage(prop, quick_len, thorough_len, cfgs_q, cfgs_t, nested_q=1, nested_t=2, classes=0x7f):
+def e3_stage(prop, quick_len, thorough_len, cfgs_q, cfgs_t, nested_q=1, nested_t=1, classes=0x7f):
     return dict(name="crash", driver="crash", flavour="asan", args=["--prop", prop, "--classes", str(classes)],
                 quick=["--cfgs", cfgs_q, "--len", str(quick_len), "--nested", str(nested_q), "--scripted", "1"],
                 thorough=["--cfgs", cfgs_t, "--len", str(thorough_len), "--nested", str(nested_t), "--scripted", "2"])
 
 
 CFG_Q = "B1;B1,reuse=1"
-CFG_T = "B1;B1,reuse=1;B1,snappy=1,bloom=1,mmap=0"
+CFG_T = "B1;B1,reuse=1"
 
 E3_RULE = ("every history up to the given length over {put-sync, put, put-1KiB, batch-sync(3 updates), del-sync, flush, reopen} plus scripted longer histories "
            "(log rotation, flush, compaction, reopen chains; thorough: a 700-update batch spanning 4 log blocks) x EVERY journal index (system-call boundary) as crash point x image classes "
@@ -236,9 +236,11 @@ PROPS["C09"] = dict(
     rule="as C08 over all scenarios incl. stalled writers (D6), close racing compaction (D8), concurrent manual compactions (D9); every API call must return in every explored schedule; distinct = distinct result vectors",
     distinct_key="outcomes", assumptions=E1_ASSUME,
     stages=[dict(name="mc", driver="mc", flavour="asan", args=["--prop", "C09"],
-                 quick=["--scenarios", MC_ALL, "--bound", "2"], thorough=["--scenarios", MC_ALL, "--bound", "3"]),
+                 quick=["--scenarios", MC_ALL, "--bound", "2"], thorough=["--scenarios", MC_ALL, "--bound", "2"]),
+            dict(name="mc-b3", driver="mc", flavour="asan", args=["--prop", "C09"], tiers=["thorough"], weight=2.0,
+                 thorough=["--scenarios", "D1,D1f,D2,D4b,D6,D8,D9,D16", "--bound", "3"]),
             dict(name="mc-spurious", driver="mc", flavour="asan", args=["--prop", "C09", "--spurious", "1"],
-                 quick=["--scenarios", "D1f,D6,D8,D9", "--bound", "1"], thorough=["--scenarios", MC_ALL, "--bound", "2"])],
+                 quick=["--scenarios", "D1f,D6,D8,D9", "--bound", "1"], thorough=["--scenarios", "D1f,D6,D7,D8,D9,D14,D2", "--bound", "2"])],
 )
 PROPS["C10"] = dict(
     level="model_checking", deadline_quick=600,
@@ -247,11 +249,11 @@ PROPS["C10"] = dict(
     distinct_key="outcomes",
     assumptions=E1_ASSUME + ["TSan keeps a bounded per-location access history: a race whose two accesses are separated by very many accesses to the same cell can be missed within one execution", "the harness' own bookkeeping (scheduler, VFS) is excluded from race detection by construction (uninstrumented TUs + ignore scopes)"],
     stages=[dict(name="mc-tsan", driver="mc", flavour="tsan", args=["--prop", "C10"],
-                 quick=["--scenarios", MC_ALL, "--bound", "1"], thorough=["--scenarios", MC_ALL, "--bound", "2"]),
+                 quick=["--scenarios", MC_ALL, "--bound", "1"], thorough=["--scenarios", "D1,D1f,D2,D3,D4b,D8,D10,D11,D15,D16,D14,D5", "--bound", "2"]),
             dict(name="mc-tsan2", driver="mc", flavour="tsan", args=["--prop", "C10"], tiers=["quick"],
                  quick=["--scenarios", "D15,D10,D11", "--bound", "2"]),
             dict(name="mc-asan", driver="mc", flavour="asan", args=["--prop", "C10"],
-                 quick=["--scenarios", "D3,D8,D11,D15", "--bound", "2"], thorough=["--scenarios", MC_ALL, "--bound", "2", "--io", "1"])],
+                 quick=["--scenarios", "D3,D8,D11,D15", "--bound", "2"], thorough=["--scenarios", "D1f,D3,D8,D11,D15", "--bound", "2", "--io", "1"])],
 )
 PROPS["C04"] = dict(
     level="model_checking",
